@@ -320,7 +320,7 @@ def mutate(R, project, version, rows, which):
 def run_shard(ctx):
     R = ctx.rng
     quick = ctx.tier == "quick"
-    n_tables = 300 if quick else 4000
+    n_tables = 900 if quick else 4000
     for i in range(n_tables):
         rows = gen_table(R)
         proj, ver = R.choice(["Proj", "My Project", "Ünï", ""]), R.choice(["1.0", "2.0rc1", ""])
